@@ -50,7 +50,7 @@ def mkcon(ctx):
   return of01, of, sock, con
 
 
-def h_ports(ctx, ninit, nnotes):
+def h_ports(ctx, ninit, nnotes, refresh=None):
   of01, of, sock, con = mkcon(ctx)
   addrs = ctx.pox('pox.lib.addresses')
   from symx.core import SymBytes
@@ -82,6 +82,26 @@ def h_ports(ctx, ninit, nnotes):
     else:                          # ADD / MODIFY: the notified description replaces whatever was known for that number
       if hit: ref[hit[0]] = d; ctx.witness('replace')
       else: ref.append(d); ctx.witness('add')
+  if refresh is not None:
+    # a further features reply on the live connection (an application asked for the features again): the port view starts over from the
+    # ports it reports - whatever notifications were applied before -, and later notifications apply to that
+    fr2 = of.ofp_features_reply(datapath_id=5)
+    if refresh == 'same': fr2.ports = list(fr.ports)
+    else:
+      p, d = mkport('r0', NAMES[ninit + nnotes])
+      fr2.ports = list(fr.ports[1:]) + [p]
+      for (n2, _, _) in orig[1:]: ctx.assume(n2 != d[0])
+      orig = orig[1:] + [d]
+    sock.feed(fr2.pack()); ctx.check('read', con.read() is True)
+    ref = list(orig)
+    reason = ctx.int('reason_late', 0, 2)
+    p, d = mkport('late', NAMES[ninit + nnotes + 1])
+    sock.feed(of.ofp_port_status(reason=reason, desc=p).pack()); ctx.check('read', con.read() is True)
+    hit = [k for k, r in enumerate(ref) if bool(r[0] == d[0])]
+    if bool(reason == 1): ref = [r for k, r in enumerate(ref) if k not in hit]
+    elif hit: ref[hit[0]] = d
+    else: ref.append(d)
+    ctx.witness('refreshed')
   ports = con.ports
   ctx.check('len', len(ports) == len(ref))
   keys = list(ports.keys())
@@ -100,7 +120,7 @@ def h_ports(ctx, ninit, nnotes):
     ctx.check('get()', ports.get(no) is p)
   # names / addresses that are no longer part of the view must not resolve
   live_names = [r[2] for r in ref]
-  for nm in NAMES[:ninit + nnotes]:
+  for nm in NAMES[:ninit + nnotes + (2 if refresh is not None else 0)]:
     if nm not in live_names:
       ctx.check('stale name does not resolve', nm not in ports)
   probe = ctx.int('probe', 0, 0xffff)
@@ -244,8 +264,9 @@ def obligations(tier):
     st.append(dict(kinds=('port', k), parts=(3, 1), order='11e12'))
   BOUNDS[tier] = dict(ports="0..2 initial ports, 0..%d notifications, 16-bit port numbers and 48-bit MACs symbolic (all aliasing patterns), reason symbolic" % (3 if thorough else 2),
                       stats="two requests (contiguous part sequences), 1..3 parts each, all 4 multipart types + desc/aggregate, barrier/echo interleaved, xids symbolic")
+  pc = pc + [dict(ninit=2, nnotes=1, refresh='same'), dict(ninit=1, nnotes=1, refresh='other')] + ([dict(ninit=2, nnotes=2, refresh='same'), dict(ninit=2, nnotes=1, refresh='other')] if thorough else [])
   return [
-    Obligation('O1_ports', h_ports, pc, witnesses=('done', 'add', 'replace', 'delete-hit', 'delete-miss'), max_decisions=20000,
+    Obligation('O1_ports', h_ports, pc, witnesses=('done', 'add', 'replace', 'delete-hit', 'delete-miss', 'refreshed'), max_decisions=20000,
                desc='PortCollection view == reference map after features reply + port-status notifications'),
     Obligation('O4_ports_handshake', h_ports_handshake, [dict(nearly=a, nlate=b) for a, b in ((1, 0), (2, 0), (2, 1), (3, 0) if thorough else (1, 1))], witnesses=('done',),
                max_decisions=20000, desc='port-status notifications inside the handshake window are applied (and announced) in arrival order'),
